@@ -177,6 +177,9 @@ func (l *loaded) checkQuery(q QueryJ, note func(string)) string {
 		}
 		// metamorphic relation + instant differential at every step
 		for _, t := range q.steps() {
+			if q.NoInstants {
+				break
+			}
 			wi := refQuery(l.ref, q.Expr, base+t, base+t, 0)
 			gi, _, _, err := promQuery(l.s, l.db, q.Expr, base+t, base+t, 0)
 			if err != nil {
